@@ -46,7 +46,7 @@ def dot {n : Nat} (u v : Fin n → α) : α := sumFin fun i => u i * v i
 
 /-- `anp.matmul(A, B)` -/
 def matMul {n k m : Nat} (A : Mat α n k) (B : Mat α k m) : Mat α n m :=
-  Mat.of fun i j => dot (fun l => A[i][l]) (fun l => B[l][j])
+  Mat.of fun i j => dot (fun l : Fin k => A[i][l]) (fun l : Fin k => B[l][j])
 
 end arith
 
@@ -85,7 +85,7 @@ def solveLower : (n : Nat) → Mat α n n → Vec α n → Vec α n
   | 0, _, _ => #v[]
   | n + 1, L, b =>
     let x' := solveLower n (lead L) (initV b)
-    let xn := (b[Fin.last n] - dot (fun j => L[Fin.last n][j.castSucc]) (fun j => x'[j])) / L[Fin.last n][Fin.last n]
+    let xn := (b[Fin.last n] - dot (fun j : Fin n => L[Fin.last n][j.castSucc]) (fun j : Fin n => x'[j])) / L[Fin.last n][Fin.last n]
     x'.push xn
 
 /-- back substitution with the transpose: the `x` with `Lᵀ x = b` for lower triangular `L`
@@ -119,15 +119,15 @@ def scaleM {n m : Nat} (K : Mat α n m) (s : α) : Mat α n m := Mat.of fun i j 
 
 /-- `matmul(transpose(linv_k_tr_te), pred_mat) + reshape(mean(test_features), (-1, 1))` -/
 def predMean {n t m : Nat} (V : Mat α n t) (P : Mat α n m) (ms : Vec α t) : Mat α t m :=
-  Mat.of fun i j => dot (fun k => V[k][i]) (fun k => P[k][j]) + ms[i]
+  Mat.of fun i j => dot (fun k : Fin n => V[k][i]) (fun k : Fin n => P[k][j]) + ms[i]
 
 /-- `kernel.diagonal(test_features) * covariance_scale - sum(square(linv_k_tr_te), axis=0)` -/
 def predVarRaw {n t : Nat} (V : Mat α n t) (kd : Vec α t) : Vec α t :=
-  Vec.of fun i => kd[i] - sumFin (fun k => V[k][i] * V[k][i])
+  Vec.of fun i => kd[i] - sumFin (fun k : Fin n => V[k][i] * V[k][i])
 
 /-- `kernel(test, test) * covariance_scale - dot(transpose(linv_k_tr_te), linv_k_tr_te)` -/
 def jointCov {n t : Nat} (V : Mat α n t) (Kss : Mat α t t) : Mat α t t :=
-  Mat.of fun i j => Kss[i][j] - dot (fun k => V[k][i]) (fun k => V[k][j])
+  Mat.of fun i j => Kss[i][j] - dot (fun k : Fin n => V[k][i]) (fun k : Fin n => V[k][j])
 
 structure Marginals (α : Type) (t m : Nat) where
   means : Mat α t m
@@ -169,14 +169,14 @@ section nll
 variable [Zero α] [One α] [Add α] [Mul α] [Neg α] [LT α] [DecidableLT α]
 
 /-- `anp.sum(anp.square(pred_mat))` -/
-def sqNorm {n m : Nat} (P : Mat α n m) : α := sumFin fun i => sumFin fun j => P[i][j] * P[i][j]
+def sqNorm {n m : Nat} (P : Mat α n m) : α := sumFin fun i : Fin n => sumFin fun j : Fin m => P[i][j] * P[i][j]
 
 def absOf (x : α) : α := if x < 0 then -x else x
 
 def prodFin {n : Nat} (f : Fin n → α) : α := (List.ofFn f).foldr (· * ·) 1
 
 /-- `∏ |Lᵢᵢ|`; the code's `logdet_cholfact` is `2 · log` of it (`= 2 Σ log |Lᵢᵢ|`). -/
-def diagAbsProd {n : Nat} (L : Mat α n n) : α := prodFin fun i => absOf L[i][i]
+def diagAbsProd {n : Nat} (L : Mat α n n) : α := prodFin fun i : Fin n => absOf L[i][i]
 
 end nll
 
@@ -203,9 +203,9 @@ def cholUpdateWith {n m : Nat} (sqrt : α → α) (minDiag : α) (L : Mat α n n
     (P : Mat α n m) (scale kdiag noise mscal : α) (target : Vec α m) (lvec : Vec α n) :
     Update α n m :=
   let kscal := kdiag * scale
-  let lsq := maxOf (kscal + noise - sumFin (fun k => lvec[k] * lvec[k])) (minDiag * minDiag)
+  let lsq := maxOf (kscal + noise - sumFin (fun k : Fin n => lvec[k] * lvec[k])) (minDiag * minDiag)
   let lscal := sqrt lsq
-  let pvec : Vec α m := Vec.of fun j => (target[j] - mscal - dot (fun k => lvec[k]) (fun k => P[k][j])) / lscal
+  let pvec : Vec α m := Vec.of fun j => (target[j] - mscal - dot (fun k : Fin n => lvec[k]) (fun k : Fin n => P[k][j])) / lscal
   { lvec := lvec, lsq := lsq, lscal := lscal
     L := border L (Vec.of fun _ => 0) lvec lscal
     P := P.push pvec }
@@ -226,9 +226,9 @@ def sampleAndUpdate {n m : Nat} (sqrt : α → α) (minDiag minVar : α) (L : Ma
     (P : Mat α n m) (kvec : Vec α n) (scale kdiag noise mscal : α) (n01 : Vec α m) :
     SampleUpdate α n m :=
   let lvec := computeLvec L kvec scale
-  let predStd := sqrt (maxOf (kdiag * scale - sumFin (fun k => lvec[k] * lvec[k])) minVar)
+  let predStd := sqrt (maxOf (kdiag * scale - sumFin (fun k : Fin n => lvec[k] * lvec[k])) minVar)
   let target : Vec α m :=
-    Vec.of fun j => (dot (fun k => lvec[k]) (fun k => P[k][j]) + mscal) + n01[j] * predStd
+    Vec.of fun j => (dot (fun k : Fin n => lvec[k]) (fun k : Fin n => P[k][j]) + mscal) + n01[j] * predStd
   { target := target
     upd := cholUpdateWith sqrt minDiag L P scale kdiag noise mscal target lvec }
 
@@ -264,7 +264,7 @@ def cholBackward [OfNat α 2] {n : Nat} (L Lbar : Mat α n n) : Mat α n n :=
 /-- `AddJitterOp_vjp(...)(g) = append(reshape(g, (-1,)), sum(diag(g)))`: cotangents of the
 matrix argument and of the scalar `sigsq_init`. -/
 def jitterVjp {n : Nat} (g : Mat α n n) : Mat α n n × α :=
-  (g, sumFin fun i => g[i][i])
+  (g, sumFin fun i : Fin n => g[i][i])
 
 end vjp
 
